@@ -110,3 +110,107 @@ Proof.
   intros H. induction l as [|x l IH]; cbn; [constructor|].
   apply Permutation_app; [now apply Permutation_flat_map|exact IH].
 Qed.
+
+(* ---------------------------------------------------------------------- *)
+(* the assignments of one include / exclude entry are a Go map as well      *)
+
+Lemma rows_equiv_refl r : rows_equiv r r.
+Proof. intros k; reflexivity. Qed.
+Lemma rows_equiv_sym r1 r2 : rows_equiv r1 r2 -> rows_equiv r2 r1.
+Proof. intros H k; symmetry; apply H. Qed.
+Lemma rows_equiv_trans r1 r2 r3 : rows_equiv r1 r2 -> rows_equiv r2 r3 -> rows_equiv r1 r3.
+Proof. intros H1 H2 k; rewrite H1; apply H2. Qed.
+Lemma ign_equiv_refl i : ign_equiv i i.
+Proof. intros k; reflexivity. Qed.
+
+(* assignments to different keys commute (up to lookup equivalence) *)
+Lemma add_assign_comm ign rows n1 a1 n2 a2 : n1 <> n2 ->
+  rows_equiv (add_assign ign (add_assign ign rows (n1, a1)) (n2, a2))
+             (add_assign ign (add_assign ign rows (n2, a2)) (n1, a1)).
+Proof.
+  intros N k.
+  destruct (mem_str n1 ign) eqn:M1.
+  { rewrite (add_assign_ignored ign rows n1 a1 M1).
+    rewrite (add_assign_ignored ign (add_assign ign rows (n2, a2)) n1 a1 M1). reflexivity. }
+  destruct (mem_str n2 ign) eqn:M2.
+  { rewrite (add_assign_ignored ign rows n2 a2 M2).
+    rewrite (add_assign_ignored ign (add_assign ign rows (n1, a1)) n2 a2 M2). reflexivity. }
+  assert (N' : n2 <> n1) by congruence.
+  destruct (String.eqb n1 k) eqn:E1.
+  - apply String.eqb_eq in E1. subst k.
+    rewrite (add_assign_other ign _ n2 a2 n1 N').
+    rewrite !(add_assign_same ign _ n1 a1 M1).
+    unfold row_of. rewrite (add_assign_other ign rows n2 a2 n1 N'). reflexivity.
+  - destruct (String.eqb n2 k) eqn:E2.
+    + apply String.eqb_eq in E2. subst k.
+      rewrite (add_assign_other ign _ n1 a1 n2 N).
+      rewrite !(add_assign_same ign _ n2 a2 M2).
+      unfold row_of. rewrite (add_assign_other ign rows n1 a1 n2 N). reflexivity.
+    + apply String.eqb_neq in E1. apply String.eqb_neq in E2.
+      rewrite !add_assign_other by assumption. reflexivity.
+Qed.
+
+Lemma fold_add_assign_perm ign l l' : Permutation l l' -> NoDupKeys l ->
+  forall rows rows', rows_equiv rows rows' ->
+  rows_equiv (fold_left (add_assign ign) l rows) (fold_left (add_assign ign) l' rows').
+Proof.
+  induction 1 as [|x l l' P IH|x y l|l l' l'' P1 IH1 P2 IH2]; intros ND rows rows' R.
+  - exact R.
+  - cbn. destruct x as [n a]. apply NoDupKeys_cons_inv in ND. destruct ND as [_ ND].
+    apply IH; [exact ND|]. apply add_assign_equiv; [exact R|apply ign_equiv_refl].
+  - cbn. destruct x as [n1 a1], y as [n2 a2].
+    assert (N : n2 <> n1).
+    { unfold NoDupKeys in ND. cbn in ND. inversion ND as [|? ? Hn _]; subst. intros ->. apply Hn. now left. }
+    apply fold_add_assign_equiv; [|apply ign_equiv_refl].
+    eapply rows_equiv_trans; [apply add_assign_comm; exact N|].
+    apply add_assign_equiv; [|apply ign_equiv_refl]. apply add_assign_equiv; [exact R|apply ign_equiv_refl].
+  - eapply rows_equiv_trans; [apply (IH1 ND rows rows' R)|].
+    apply IH2; [eapply NoDupKeys_perm; eauto|apply rows_equiv_refl].
+Qed.
+
+(* two include lists that differ only in the order in which each entry's
+   assignments are stored *)
+Definition comb_perm (c c' : comb) : Prop :=
+  c_expr c = c_expr c' /\ Permutation (c_assigns c) (c_assigns c') /\ NoDupKeys (c_assigns c).
+
+Lemma fold_add_include_perm ign cs : forall cs' rows rows',
+  Forall2 comb_perm cs cs' -> rows_equiv rows rows' ->
+  rows_equiv (fold_left (add_include ign) cs rows) (fold_left (add_include ign) cs' rows').
+Proof.
+  induction cs as [|c cs IH]; intros cs' rows rows' F R; inversion F as [|? c' ? ? [_ [P ND]] F']; subst; cbn; [exact R|].
+  apply IH; [exact F'|]. unfold add_include. now apply fold_add_assign_perm.
+Qed.
+
+Definition with_include (m : matrix) (inc : option combs) : matrix :=
+  {| m_expr := m_expr m; m_pos := m_pos m; m_rows := m_rows m; m_include := inc; m_exclude := m_exclude m |}.
+
+Lemma existsb_comb_perm cs cs' : Forall2 comb_perm cs cs' -> existsb c_expr cs = existsb c_expr cs'.
+Proof. induction 1 as [|c c' l l' [E _] _ IH]; cbn; [reflexivity|]. now rewrite E, IH. Qed.
+
+Lemma Forall2_nil_iff {A B} (R : A -> B -> Prop) l l' : Forall2 R l l' ->
+  match l with [] => true | _ :: _ => false end = match l' with [] => true | _ :: _ => false end.
+Proof. intros H; inversion H; reflexivity. Qed.
+
+(* C19: the order in which the assignments of include entries are visited
+   (Go map iteration) does not change any exclude verdict *)
+Theorem check_exclude_include_perm m ce cs' :
+  m_include m = Some {| cs_expr := ce; cs_list := cs' |} -> forall cs,
+  Forall2 comb_perm cs cs' ->
+  check_exclude (with_include m (Some {| cs_expr := ce; cs_list := cs |})) = check_exclude m.
+Proof.
+  intros HI cs F. unfold check_exclude. cbn [m_exclude m_include m_rows m_pos with_include].
+  rewrite HI.
+  destruct (m_exclude m) as [ex|]; [|reflexivity].
+  destruct (cs_list ex) as [|c0 cl] eqn:EL; [reflexivity|].
+  unfold combs_contains_expr. cbn [cs_expr cs_list]. rewrite (existsb_comb_perm cs cs' F).
+  destruct (ce || existsb c_expr cs'); [reflexivity|].
+  assert (IL1 : include_list (with_include m (Some {| cs_expr := ce; cs_list := cs |})) = cs) by reflexivity.
+  assert (IL2 : include_list m = cs') by (unfold include_list; now rewrite HI).
+  rewrite IL1, IL2, (Forall2_nil_iff _ _ _ F).
+  destruct (match m_rows m with [] => true | _ :: _ => false end && match cs' with [] => true | _ :: _ => false end); [reflexivity|].
+  unfold candidates. rewrite IL1, IL2. cbn [m_rows with_include].
+  destruct (base_rows (m_rows m)) as [rows ign].
+  pose proof (fold_add_include_perm ign cs cs' rows rows F (rows_equiv_refl rows)) as R.
+  apply flat_map_ext_eq. intros c. apply flat_map_ext_eq. intros ka.
+  apply check_assign_equiv; [exact R|apply ign_equiv_refl].
+Qed.
